@@ -130,3 +130,50 @@ def model_of(obl, timeout_s=30, instantiate=False):
     if s.check() == z3.sat:
         return s.model()
     return None
+
+
+# ------------------------------------------------------------------------------------------------------------------
+# bounded refutation of an *undecided* obligation: quantifiers are expanded over a small finite integer domain, which
+# makes the negated obligation a quantifier-free query.  A model found this way is only a *candidate* (the hypotheses
+# are not enforced outside the domain): it counts for nothing unless its concretisation replays on the real code.
+def _finite(e, dom, memo):
+    k = e.get_id()
+    if k in memo:
+        return memo[k]
+    if z3.is_quantifier(e):
+        if e.is_lambda():
+            r = e
+        else:
+            import itertools
+            n = e.num_vars()
+            if any(e.var_sort(i) != z3.IntSort() for i in range(n)) or len(dom) ** n > 4000:
+                r = z3.BoolVal(True) if e.is_forall() else z3.BoolVal(False)      # drop (weaker hypothesis / unprovable goal part)
+            else:
+                parts = []
+                for vals in itertools.product(dom, repeat=n):
+                    inst = z3.substitute_vars(e.body(), *[z3.IntVal(v) for v in reversed(vals)])
+                    parts.append(_finite(inst, dom, memo))
+                r = z3.And(*parts) if e.is_forall() else z3.Or(*parts)
+    elif z3.is_app(e) and e.num_args() > 0:
+        ch = [_finite(c, dom, memo) for c in e.children()]
+        r = e.decl()(*ch) if any(a.get_id() != b.get_id() for a, b in zip(ch, e.children())) else e
+    else:
+        r = e
+    memo[k] = r
+    return r
+
+
+def bounded_refute(obl, lo, hi, extra=(), timeout_s=30):
+    """-> z3 model of (hyps and not goal) with all integer quantifiers expanded over [lo, hi], or None"""
+    dom = list(range(lo, hi + 1))
+    memo = {}
+    s = z3.Solver()
+    s.set('timeout', int(timeout_s * 1000))
+    for h in obl.hyps:
+        s.add(_finite(h, dom, memo))
+    s.add(_finite(z3.Not(obl.goal), dom, memo))
+    for x in extra:
+        s.add(x)
+    if s.check() == z3.sat:
+        return s.model()
+    return None
